@@ -33,9 +33,11 @@ import (
 	oracletypes "github.com/bandprotocol/chain/v3/x/oracle/types"
 	restaketypes "github.com/bandprotocol/chain/v3/x/restake/types"
 	tsstypes "github.com/bandprotocol/chain/v3/x/tss/types"
+	tunnelkeeper "github.com/bandprotocol/chain/v3/x/tunnel/keeper"
 	tunneltypes "github.com/bandprotocol/chain/v3/x/tunnel/types"
 
 	"verifharness/internal/fx"
+	"verifharness/internal/tssfx"
 )
 
 var statsPath string
@@ -47,13 +49,16 @@ var debugLogs = os.Getenv("C02_DEBUG") != ""
 func hx(b []byte) string { return hex.EncodeToString(b) }
 
 type twin struct {
-	a, b   *fx.App
-	r      *fx.Rng
-	height int64
-	now    time.Time
-	seqs   map[string]uint64
-	powers []int64 // consensus powers reported in DecidedLastCommit
-	accs   []bandtesting.Account
+	a, b    *fx.App
+	r       *fx.Rng
+	height  int64
+	now     time.Time
+	seqs    map[string]uint64
+	powers  []int64 // consensus powers reported in DecidedLastCommit
+	accs    []bandtesting.Account
+	grp     *tssfx.Group // the current bandtss signing group (same on both replicas), or nil
+	pickFee int
+	r0      int // fee payer funding of the pre-created tunnel
 }
 
 func (t *twin) accNum(app *fx.App, addr sdk.AccAddress) (uint64, bool) {
@@ -115,6 +120,11 @@ func (t *twin) randMsg() (sdk.Msg, bandtesting.Account) {
 			return rstr(r)
 		}
 		return r.PickStr("CS:BTC-USD", "CS:ETH-USD", "CS:BAND-USD", "CS:ATOM-USD", "CS:SOL-USD")
+	}
+	if t.grp != nil && r.Chance(1, 3) {
+		if m, a, ok := t.tssMsg(adv); ok {
+			return m, a
+		}
 	}
 	switch r.Intn(28) {
 	case 0, 1:
@@ -252,6 +262,49 @@ func (t *twin) randMsg() (sdk.Msg, bandtesting.Account) {
 	}
 }
 
+// tssMsg: a message of the signing life cycle on the current group — nonce (DE) submission by a member, a signature
+// request, a member's partial signature for a waiting signing (real share, sometimes corrupted), re-activation.
+func (t *twin) tssMsg(adv bool) (sdk.Msg, bandtesting.Account, bool) {
+	r, g := t.r, t.grp
+	id := r.Range(1, int(g.N))
+	member := g.Accounts[id-1]
+	switch r.Intn(6) {
+	case 0, 1:
+		return tsstypes.NewMsgSubmitDEs(g.NewDEs(id, r.Range(1, 4)), member.Address.String()), member, true
+	case 2:
+		acct := t.accs[r.Intn(len(t.accs))]
+		var c tsstypes.Content = tsstypes.NewTextSignatureOrder(append([]byte("msg"), r.Bytes(r.Range(1, 20))...))
+		limit := sdk.NewCoins(sdk.NewInt64Coin("uband", int64(r.PickInt(0, 1, 100, 1_000_000))))
+		m, err := bandtsstypes.NewMsgRequestSignature(c, limit, acct.Address.String())
+		if err != nil {
+			return nil, acct, false
+		}
+		return m, acct, true
+	case 3, 4:
+		// a partial signature for some waiting signing in which this member is assigned
+		ctx := t.a.BaseApp.NewUncachedContext(false, cmtproto.Header{Height: t.height, Time: t.now, ChainID: bandtesting.ChainID})
+		n := t.a.TSSKeeper.GetSigningCount(ctx)
+		for k := uint64(0); k < n && k < 8; k++ {
+			sid := tsslib.SigningID(n - k)
+			if sg, err := t.a.TSSKeeper.GetSigning(ctx, sid); err != nil || (sg.Status != tsstypes.SIGNING_STATUS_WAITING && !adv) {
+				continue
+			}
+			sig, err := g.Sign(ctx, t.a.TSSKeeper, sid, tsslib.MemberID(id))
+			if err != nil {
+				continue
+			}
+			if adv {
+				sig = append(tsslib.Signature{}, sig...)
+				sig[len(sig)-1] ^= 1
+			}
+			return tsstypes.NewMsgSubmitSignature(sid, tsslib.MemberID(id), sig, member.Address.String()), member, true
+		}
+		return nil, member, false
+	default:
+		return bandtsstypes.NewMsgActivate(member.Address.String(), g.GroupID), member, true
+	}
+}
+
 // extreme sets one randomly chosen numeric / duration / decimal-string field of a params struct to a boundary value
 func extreme(r *fx.Rng, ptr any) string {
 	v := reflect.ValueOf(ptr).Elem()
@@ -265,6 +318,26 @@ func extreme(r *fx.Rng, ptr any) string {
 				idx = append(idx, i)
 			}
 		}
+	}
+	// coin-list parameters: lists that sdk.Coins.IsValid rejects (unsorted, duplicate, zero) and a few it accepts
+	var coinIdx []int
+	for i := 0; i < v.NumField(); i++ {
+		if v.Field(i).Type() == reflect.TypeOf(sdk.Coins{}) {
+			coinIdx = append(coinIdx, i)
+		}
+	}
+	if len(coinIdx) > 0 && r.Chance(1, 3) {
+		i := coinIdx[r.Intn(len(coinIdx))]
+		c := func(d string, a int64) sdk.Coin { return sdk.Coin{Denom: d, Amount: sdkmath.NewInt(a)} }
+		val := [][]sdk.Coin{
+			{c("uband", 10), c("aaa", 5)},  // unsorted
+			{c("uband", 1), c("uband", 2)}, // duplicate denom
+			{c("uband", 0)},                // zero amount
+			{c("aaa", 3), c("uband", 7)},   // valid, two denoms
+			{c("uband", 1)}, {}, {c("uband", 1_000_000_000_000)},
+		}[r.Intn(7)]
+		v.Field(i).Set(reflect.ValueOf(sdk.Coins(val)))
+		return fmt.Sprintf("%s=%v", v.Type().Field(i).Name, sdk.Coins(val))
 	}
 	if len(idx) == 0 {
 		return ""
@@ -485,6 +558,8 @@ func main() {
 		A, B := fx.NewApp(), fx.NewApp()
 		t := &twin{a: A, b: B, r: r.Fork(), height: A.LastBlockHeight(), now: time.Unix(1_700_000_000, 0).UTC(), seqs: map[string]uint64{},
 			accs: []bandtesting.Account{bandtesting.Alice, bandtesting.Bob, bandtesting.Carol, bandtesting.Owner, bandtesting.Validators[0], bandtesting.Validators[1], bandtesting.Validators[2]}}
+		t.pickFee = t.r.PickInt(0, 1, 10, 1000)
+		t.r0 = t.r.PickInt(0, 20_000, 5_000_000, 1_000_000_000)
 		t.powers = [][]int64{{100, 1, 99}, {100, 1, 100}, {1, 1, 4}, {7, 7, 7}, {int64(t.r.Range(1, 1000)), int64(t.r.Range(1, 1000)), int64(t.r.Range(1, 1000))}}[t.r.Intn(5)]
 		tr.Reset(fx.M{"powers": t.powers, "genesisHashA": hx(A.LastCommitID().Hash), "genesisHashB": hx(B.LastCommitID().Hash)})
 		// the accounts are funded (same on both replicas) so that deposits, fee limits and delegations can succeed
@@ -492,6 +567,47 @@ func main() {
 			fctx := app.BaseApp.NewUncachedContext(false, cmtproto.Header{Height: t.height, Time: t.now, ChainID: bandtesting.ChainID})
 			for _, ac := range t.accs {
 				app.Fund(fctx, ac.Address, "uband", sdkmath.NewInt(20_000_000_000))
+			}
+		}
+		// in half of the cases the chain has a current bandtss signing group (one key generation fed to both replicas),
+		// funded member accounts, and a fee per signer
+		if t.r.Chance(1, 2) {
+			hdr := cmtproto.Header{Height: t.height, Time: t.now, ChainID: bandtesting.ChainID}
+			ctxA, ctxB := A.BaseApp.NewUncachedContext(false, hdr), B.BaseApp.NewUncachedContext(false, hdr)
+			members := tssfx.NewAccounts(int64(a.Seed)*131+int64(c), t.r.Range(2, 3))
+			g, err := tssfx.NewGroupTwin(A, ctxA, B, ctxB, members, uint64(t.r.Range(1, 2)), bandtsstypes.ModuleName)
+			fx.Must(err)
+			for _, x := range []struct {
+				app *fx.App
+				ctx sdk.Context
+			}{{A, ctxA}, {B, ctxB}} {
+				g.MakeCurrent(x.app, x.ctx)
+				for _, m := range members {
+					x.app.Fund(x.ctx, m.Address, "uband", sdkmath.NewInt(20_000_000_000))
+				}
+				bp := x.app.BandtssKeeper.GetParams(x.ctx)
+				bp.FeePerSigner = sdk.NewCoins(sdk.NewInt64Coin("uband", int64(t.pickFee)))
+				fx.Must(x.app.BandtssKeeper.SetParams(x.ctx, bp))
+			}
+			t.grp = g
+			tr.Tag("with-signing-group")
+			// … and an ACTIVE TSS-route tunnel, so that every end-block prices a packet through bandtss
+			for _, x := range []struct {
+				app *fx.App
+				ctx sdk.Context
+			}{{A, ctxA}, {B, ctxB}} {
+				tp := x.app.TunnelKeeper.GetParams(x.ctx)
+				ms := tunnelkeeper.NewMsgServerImpl(x.app.TunnelKeeper)
+				sds := []tunneltypes.SignalDeviation{tunneltypes.NewSignalDeviation("CS:BTC-USD", tp.MinDeviationBPS, tp.MinDeviationBPS), tunneltypes.NewSignalDeviation("CS:ETH-USD", tp.MinDeviationBPS, tp.MaxDeviationBPS)}
+				m, err := tunneltypes.NewMsgCreateTSSTunnel(sds, tp.MinInterval, "chain-1", "0xabc", feedstypes.ENCODER_FIXED_POINT_ABI, tp.MinDeposit, bandtesting.Alice.Address.String())
+				fx.Must(err)
+				res, err := ms.CreateTunnel(x.ctx, m)
+				fx.Must(err)
+				_, err = ms.Activate(x.ctx, tunneltypes.NewMsgActivate(res.TunnelID, bandtesting.Alice.Address.String()))
+				fx.Must(err)
+				tn, err := x.app.TunnelKeeper.GetTunnel(x.ctx, res.TunnelID)
+				fx.Must(err)
+				x.app.Fund(x.ctx, sdk.MustAccAddressFromBech32(tn.FeePayer), "uband", sdkmath.NewInt(int64(t.r0)))
 			}
 		}
 		tr.Op(fx.M{"op": "genesis", "out": fx.M{"hashA": hx(A.LastCommitID().Hash), "hashB": hx(B.LastCommitID().Hash)}})
